@@ -235,3 +235,42 @@ func TestProp_RejectRedeclare(t *testing.T) {
 		ev.Case("reject-redeclare", bad, true, first[:3]+"/"+second[:3])
 	})
 }
+
+// ---------- long flat programs
+
+func flatProgram(t *rapid.T) (src string, want string, o js.Options, k int) {
+	o = js.Options{WhileToFor: rapid.Bool().Draw(t, "whileToFor"), Inline: rapid.Bool().Draw(t, "inline")}
+	g := jsgen.New(t)
+	g.WhileToFor = o.WhileToFor
+	g.MaxDepth = rapid.IntRange(1, 3).Draw(t, "maxDepth")
+	prog := g.Program()
+	// one block per repetition: lexical declarations of the repeated program stay legal
+	toks := append(append([]jsgen.Tok{{S: "{"}}, prog.Toks...), jsgen.Tok{S: "}"})
+	one, _ := jsgen.Render(t, toks, rapid.Bool().Draw(t, "dense"))
+	k = rapid.SampledFrom([]int{999, 1000, 1001, 1002, 1100, 1500, 2000, 3000}).Draw(t, "repeat")
+	for k > 999 && k*len(one) > 3<<20 {
+		k = 999 + (k-999)/2
+	}
+	src = strings.Repeat(one+"\n", k)
+	want = strings.TrimSuffix(strings.Repeat("Stmt({ "+prog.Str+" }) ", k), " ")
+	return
+}
+
+func TestProp_Flat(t *testing.T) {
+	ev.Describe("flat", "a small generated program (1-4 statements, depth <= 3, any spelling) wrapped in a block and repeated 999-3000 times on consecutive lines (a long, flat program: nothing nests deeper than the one block); oracle: Parse succeeds and String() is the expected tree of the block repeated as often (a per-statement or per-expression drift of the nesting counters, or any other state that accumulates over a long statement list, rejects or mis-parses the tail); non-trivial = >= 1000 repetitions")
+	ev.Check(t, 40, func(t *rapid.T) {
+		src, want, o, k := flatProgram(t)
+		ast, err := js.Parse(parse.NewInputString(src), o)
+		if err != nil {
+			t.Fatalf("%d repetitions of\n%s\nare rejected (%+v): %v", k, src[:strings.Index(src, "\n")+1], o, err)
+		}
+		if got := ast.String(); got != want {
+			i := 0
+			for i < len(got) && i < len(want) && got[i] == want[i] {
+				i++
+			}
+			t.Fatalf("%d repetitions of\n%s\nparse to a tree that differs from the repeated expectation at byte %d:\n  got  …%.200s\n  want …%.200s", k, src[:strings.Index(src, "\n")+1], i, got[max(0, i-40):], want[max(0, i-40):])
+		}
+		ev.Case("flat", fmt.Sprintf("%d x %s", k, src[:strings.Index(src, "\n")]), k >= 1000, fmt.Sprintf("repeat=%d", k))
+	})
+}
